@@ -129,7 +129,9 @@ pub fn run(ctx: &Ctx, rep: &mut Report) {
                                 }
                                 Ok(Ok((false, _))) => {}
                                 Ok(Err(_)) => rep.count("split_errors", 1),
-                                Err(p) => rep.skipped_panic(&p, json!({"world_index": wi, "text": text, "stage": "split_into"})),
+                                // the generated dictionaries never declare units longer than the key (that is known finding
+                                // D9), so a panic while splitting or reading the split result breaks the surface clause
+                                Err(p) => rep.violation("split_accessor_panic", &p.site, &format!("split_into({}) of morpheme {}: {}", scen::mode_name(sm), idx, p.msg), "", scenario()),
                             }
                         }
                     }
